@@ -61,8 +61,6 @@ struct Runner {
     sql_errors: BTreeMap<&'static str, u64>,
     sql_error_samples: Vec<Value>,
     in_kw: bool,
-    unparser_adjacent: u64,
-    unparser_adjacent_sample: Value,
     sql_unexplained: Vec<Value>,
     kw_sql_rejected: u64,
 }
@@ -70,7 +68,7 @@ struct Runner {
 impl Runner {
     fn new() -> Self {
         let rt = tokio::runtime::Builder::new_current_thread().enable_all().build().unwrap();
-        Runner { rt, ctx: SessionContext::new(), counts: BTreeMap::new(), sql_errors: BTreeMap::new(), sql_error_samples: vec![], in_kw: false, unparser_adjacent: 0, unparser_adjacent_sample: Value::Null, sql_unexplained: vec![], kw_sql_rejected: 0 }
+        Runner { rt, ctx: SessionContext::new(), counts: BTreeMap::new(), sql_errors: BTreeMap::new(), sql_error_samples: vec![], in_kw: false, sql_unexplained: vec![], kw_sql_rejected: 0 }
     }
 
     fn hit(&mut self, p: &'static str) {
@@ -201,30 +199,6 @@ impl Runner {
                 Ok(Expr::Column(g)) => chk(self, &mut f, "SQL expression <quoted_flat_name> -> Expr::Column", &text, g),
                 Ok(other) => self.sql_err("SQL expression <quoted_flat_name> -> Expr::Column", p, &text, format!("unexpected expr {other}")),
                 Err(e) => self.sql_err("SQL expression <quoted_flat_name> -> Expr::Column", p, &text, e.to_string()),
-            }
-            // generated SQL: the unparser writes the column, the SQL front end reads it back
-            const UP: &str = "unparser expr_to_sql(column) -> SQL expression -> Expr::Column";
-            let adjacent = p.iter().any(|x| x.contains("\"\"") || x.contains("\\\""));
-            let gen_sql = datafusion::sql::unparser::expr_to_sql(&Expr::Column(c.clone())).map(|a| a.to_string());
-            let back = match &gen_sql {
-                Ok(g) => self.ctx.state().create_logical_expr(g, &schema).map_err(|e| e.to_string()),
-                Err(e) => Err(e.to_string()),
-            };
-            let gtext = gen_sql.unwrap_or_default();
-            match back {
-                Ok(Expr::Column(g)) if g.relation == c.relation && g.name == c.name => self.hit(UP),
-                other => {
-                    let e = match other { Ok(x) => format!("resolved to {x}"), Err(e) => e };
-                    if adjacent {
-                        // known finding: identifiers with two adjacent double quotes (kept apart, never crowds out others)
-                        self.unparser_adjacent += 1;
-                        if self.unparser_adjacent_sample.is_null() {
-                            self.unparser_adjacent_sample = json!({"kind": "C", "parts": p, "path": UP, "text": gtext, "got": e});
-                        }
-                    } else {
-                        self.sql_err(UP, p, &gtext, e);
-                    }
-                }
             }
         }
         (text, f)
@@ -426,7 +400,6 @@ pub fn main() {
         "sql_rejected_unexplained": rn.sql_unexplained,
         "failures": failures,
         "n_failures": nfail,
-        "unparser_adjacent_quotes": {"n": rn.unparser_adjacent, "sample": rn.unparser_adjacent_sample},
         "failures_empty_identifier": failures_empty,
         "n_failures_empty_identifier": nfail_empty,
         "native": native,
